@@ -624,7 +624,7 @@ class Scalar(Qube):
 
         if recursive and no_negs._derivs_:
             for (key, deriv) in self._derivs_.items():
-                obj.insert_deriv(key, deriv / no_negs)
+                obj.insert_deriv(key, deriv / no_negs.wod)
 
         return obj
 
